@@ -1,6 +1,7 @@
-// Package simsyscall replaces package syscall in token/worker only: Kill goes
-// to the process simulator (the pids relic holds are simulated ones); the
-// types and constants are the real ones.
+// Package simsyscall replaces package syscall in token/worker (Kill goes to
+// the process simulator: the pids relic holds are simulated ones) and in
+// lib/audit (a raw Write on the descriptor of a simulated file goes through
+// the simulated disk); the types and constants are the real ones.
 package simsyscall
 
 import (
@@ -55,3 +56,15 @@ func Kill(pid int, sig Signal) error {
 
 func Getpid() int  { return syscall.Getpid() }
 func Getppid() int { return syscall.Getppid() }
+
+// Write is write(2).  On a descriptor that belongs to a file of the simulated
+// disk it is subject to that disk's faults, with the semantics of the system
+// call: a short write returns the short count and no error.
+func Write(fd int, p []byte) (int, error) {
+	if simhook.RawWrite != nil {
+		if n, err, ok := simhook.RawWrite(fd, p); ok {
+			return n, err
+		}
+	}
+	return syscall.Write(fd, p)
+}
